@@ -123,13 +123,17 @@ def initFs (f : FsCfg) (env : Env) (rootProposal : Name) (rootPerm : Int) : M Na
     | .error _ => mkdirRoot f env rootProposal rootPerm
   | .error e => M.fail e
 
-def mkdir (f : FsCfg) (env : Env) (name : Name) (perm : Int) : M Unit := do
+/-- the precondition part of `Mkdir`: read-only probes, returns the cleaned name -/
+def mkdirGuard (f : FsCfg) (name : Name) : M Name := do
   if f.readOnly then M.fail .permission else
   let name := clean name
   let _ ← notExistIfNoRows (stat (dir name) false)
   if (← M.attempt (stat name false)).toBool then M.fail .exist else
   if (← M.attempt (stat name true)).toBool then M.fail .exist else
-  mknod f env true name perm false [] false
+  pure name
+
+def mkdir (f : FsCfg) (env : Env) (name : Name) (perm : Int) : M Unit :=
+  mkdirGuard f name >>= fun name => mknod f env true name perm false [] false
 
 /-- the loop body of `MkdirAll` for one element of `filepath.SplitList` -/
 def mkdirAllStep (f : FsCfg) (env : Env) (perm : Int) (currentPath : Name) : M Unit := do
@@ -153,8 +157,8 @@ def mkdirAll (f : FsCfg) (env : Env) (path : Name) (perm : Int) : M Unit := do
   if f.readOnly then M.fail .permission else
   mkdirAllLoop f env perm [] (splitList (clean path))
 
-/-- `removeWithoutLocking` -/
-def removeNoLock (f : FsCfg) (env : Env) (name : Name) : M Unit := do
+/-- the precondition part of `removeWithoutLocking`: exists, and is empty when a directory -/
+def removeGuard (f : FsCfg) (name : Name) : M Unit := do
   if f.readOnly then M.fail .permission else
   let h ← (do
     match ← M.attempt (stat name false) with
@@ -164,9 +168,13 @@ def removeNoLock (f : FsCfg) (env : Env) (name : Name) : M Unit := do
   if h.typeflag == tfDir && h.linkname == [] then
     let hs ← list name (-1)
     if hs.length > 0 then M.fail .notEmpty else pure ()
-  M.op (fun w => delete f.c w name env.recs)
+  else pure ()
 
-def remove (f : FsCfg) (env : Env) (name : Name) : M Unit := do
+/-- `removeWithoutLocking` -/
+def removeNoLock (f : FsCfg) (env : Env) (name : Name) : M Unit :=
+  removeGuard f name >>= fun _ => M.op (fun w => delete f.c w name env.recs)
+
+def remove (f : FsCfg) (env : Env) (name : Name) : M Unit :=
   if f.readOnly then M.fail .permission else
   removeNoLock f env (clean name)
 
@@ -177,7 +185,8 @@ def removeAll (f : FsCfg) (env : Env) (path : Name) : M Unit := do
   | .error .noRows => pure ()
   | .error e => M.fail e
 
-def rename (f : FsCfg) (env : Env) (oldname newname : Name) : M Unit := do
+/-- the precondition part of `Rename`: cleaned names and whether the target exists -/
+def renameGuard (f : FsCfg) (oldname newname : Name) : M (Name × Name × Bool) := do
   if f.readOnly then M.fail .permission else
   if oldname == [] || newname == [] then M.fail .invalid else
   let oldname := clean oldname
@@ -194,9 +203,13 @@ def rename (f : FsCfg) (env : Env) (oldname newname : Name) : M Unit := do
   let _ ← notExistIfNoRows (stat (dir newname) false)
   match ← M.attempt (stat newname false) with
   | .ok target =>
-    if target.typeflag != source.typeflag then M.fail .exist else
-    removeNoLock f env newname      -- and then returns without moving
-  | .error _ => M.op (fun w => move f.c w oldname newname env.recs)
+    if target.typeflag != source.typeflag then M.fail .exist else pure (oldname, newname, true)
+  | .error _ => pure (oldname, newname, false)
+
+def rename (f : FsCfg) (env : Env) (oldname newname : Name) : M Unit :=
+  renameGuard f oldname newname >>= fun (oldname, newname, targetExists) =>
+    if targetExists then removeNoLock f env newname      -- and then returns without moving
+    else M.op (fun w => move f.c w oldname newname env.recs)
 
 /-- the lookup shared by `Stat`, and the `name → symlink → target` chain of `Chmod/Chown/Chtimes` -/
 def statOrLink (name : Name) : M Hdr := do
@@ -223,23 +236,20 @@ def updateMetadata (f : FsCfg) (env : Env) (h : Hdr) : M Unit := do
       attrs := { h.attrs with mode := permBits h.attrs.mode }, pax := h.pax }
   M.op (fun w => update f.c w [src] false false env.recs)
 
-def chmod (f : FsCfg) (env : Env) (name : Name) (mode : Int) : M Unit := do
+/-- the precondition part of `Chmod`/`Chown`/`Chtimes`: the header to update -/
+def attrGuard (f : FsCfg) (name : Name) : M Hdr := do
   if f.readOnly then M.fail .permission else
   if name == [] then M.fail .invalid else
-  let h ← statForUpdate (clean name)
-  updateMetadata f env { h with attrs := { h.attrs with mode := mode } }
+  statForUpdate (clean name)
 
-def chown (f : FsCfg) (env : Env) (name : Name) (uid gid : Int) : M Unit := do
-  if f.readOnly then M.fail .permission else
-  if name == [] then M.fail .invalid else
-  let h ← statForUpdate (clean name)
-  updateMetadata f env { h with attrs := { h.attrs with uid := uid, gid := gid } }
+def chmod (f : FsCfg) (env : Env) (name : Name) (mode : Int) : M Unit :=
+  attrGuard f name >>= fun h => updateMetadata f env { h with attrs := { h.attrs with mode := mode } }
 
-def chtimes (f : FsCfg) (env : Env) (name : Name) (atime mtime : Int) : M Unit := do
-  if f.readOnly then M.fail .permission else
-  if name == [] then M.fail .invalid else
-  let h ← statForUpdate (clean name)
-  updateMetadata f env { h with attrs := { h.attrs with atime := atime, mtime := mtime } }
+def chown (f : FsCfg) (env : Env) (name : Name) (uid gid : Int) : M Unit :=
+  attrGuard f name >>= fun h => updateMetadata f env { h with attrs := { h.attrs with uid := uid, gid := gid } }
+
+def chtimes (f : FsCfg) (env : Env) (name : Name) (atime mtime : Int) : M Unit :=
+  attrGuard f name >>= fun h => updateMetadata f env { h with attrs := { h.attrs with atime := atime, mtime := mtime } }
 
 /-- `lstatIfPossibleWithoutLocking`: header and `path.Base(hdr.Linkname)` -/
 def lstatNoLock (name : Name) : M (Hdr × Name) := do
@@ -262,7 +272,8 @@ def resolveCleanName (name : Name) : M Name := do
     pure (clean r)
   else pure (clean name)
 
-def symlink (f : FsCfg) (env : Env) (oldname newname : Name) : M Unit := do
+/-- the precondition part of `SymlinkIfPossible`: resolved names -/
+def symlinkGuard (f : FsCfg) (oldname newname : Name) : M (Name × Name) := do
   if f.readOnly then M.fail .permission else
   if oldname == [] || newname == [] then M.fail .invalid else
   let rawOld := oldname
@@ -272,7 +283,10 @@ def symlink (f : FsCfg) (env : Env) (oldname newname : Name) : M Unit := do
   let _ ← notExistIfNoRows (stat (dir newname) false)
   if isRoot rawNew false && isRoot rawOld false then M.fail .exist else
   if !isRoot rawNew true && (← M.attempt (stat newname false)).toBool then M.fail .exist else
-  mknod f env false oldname 511 false newname false
+  pure (oldname, newname)
+
+def symlink (f : FsCfg) (env : Env) (oldname newname : Name) : M Unit :=
+  symlinkGuard f oldname newname >>= fun (oldname, newname) => mknod f env false oldname 511 false newname false
 
 /-! ### OpenFile -/
 
